@@ -114,17 +114,26 @@ DashExpand(p, pos) ==      \* all variants, first dash outermost (order is not p
 NextPct(p, i) ==    \* least j > i in the same literal run with p[j] = '%', or 0
     LET J == {j \in (i + 1)..Len(p) : p[j] = CH_PCT /\ \A k \in (i + 1)..j : p[k] >= 0}
     IN  IF J = {} THEN 0 ELSE CHOOSE j \in J : \A j2 \in J : j <= j2
-RECURSIVE ExpandFrom(_, _)
-ExpandFrom(p, i) ==        \* [parts, phs]
+RECURSIVE BslRun(_, _)
+BslRun(t, i) == IF i <= Len(t) /\ t[i] = CH_BSL THEN 1 + BslRun(t, i + 1) ELSE 0      \* length of the run of backslashes from i on
+RECURSIVE BslBefore(_, _)
+BslBefore(t, i) == IF i > 1 /\ t[i - 1] = CH_BSL THEN 1 + BslBefore(t, i - 1) ELSE 0  \* ... of the run that ends before i
+\* (verb: the text is verbatim - a regular expression -, so that a backslash which is itself escaped escapes nothing:
+\*  a percent sign is escaped iff an ODD number of backslashes stands before it.  In a parsed string the pairs are gone.)
+RECURSIVE ExpandFromV(_, _, _)
+ExpandFrom(p, i) == ExpandFromV(p, i, FALSE)
+ExpandFromV(p, i, verb) ==        \* [parts, phs]
     IF i > Len(p) THEN [parts |-> <<>>, phs |-> <<>>]
-    ELSE IF /\ p[i] = CH_PCT /\ (i = 1 \/ p[i - 1] # CH_BSL)
+    ELSE IF verb /\ p[i] = CH_BSL /\ i < Len(p) /\ p[i + 1] = CH_BSL
+         THEN LET r == ExpandFromV(p, i + 2, verb) IN [parts |-> <<CH_BSL, CH_BSL>> \o r.parts, phs |-> r.phs]   \* an escaped backslash
+    ELSE IF /\ p[i] = CH_PCT /\ (i = 1 \/ p[i - 1] # CH_BSL \/ (verb /\ BslBefore(p, i) % 2 = 0))
             /\ NextPct(p, i) >= i + 2
          THEN LET j == NextPct(p, i)
-                  r == ExpandFrom(p, j + 1)
+                  r == ExpandFromV(p, j + 1, verb)
               IN  [parts |-> <<PH>> \o r.parts, phs |-> <<Slice(p, i + 1, j - 1)>> \o r.phs]
     ELSE IF p[i] = CH_BSL /\ i < Len(p) /\ p[i + 1] = CH_PCT
-         THEN LET r == ExpandFrom(p, i + 2) IN [parts |-> <<CH_PCT>> \o r.parts, phs |-> r.phs]   \* \% -> %
-    ELSE LET r == ExpandFrom(p, i + 1) IN [parts |-> <<p[i]>> \o r.parts, phs |-> r.phs]
+         THEN LET r == ExpandFromV(p, i + 2, verb) IN [parts |-> <<CH_PCT>> \o r.parts, phs |-> r.phs]   \* \% -> %
+    ELSE LET r == ExpandFromV(p, i + 1, verb) IN [parts |-> <<p[i]>> \o r.parts, phs |-> r.phs]
 \* text of a regular expression as parts (its '*' and '?' end literal runs, as in the object model)
 ReParts(t) == [i \in 1..Len(t) |-> IF t[i] = CH_STAR THEN STAR ELSE IF t[i] = CH_QM THEN QM ELSE t[i]]
 ReText(p, phs) ==
@@ -148,7 +157,10 @@ SafeRegex(t) ==
     /\ \A i \in 1..Len(t) : t[i] \notin {40, 41, 91, 93, 123, 125}
     /\ \A i \in 1..Len(t) : t[i] \in {CH_STAR, CH_QM, 43} =>
             i > 1 /\ t[i - 1] \notin {CH_STAR, CH_QM, 43, 124, 94, 36, CH_BSL}
-    /\ \A i \in 1..Len(t) : t[i] = CH_BSL => FALSE
+    \* (backslashes only as escaped backslash or escaped percent sign: every maximal run of backslashes is even, or odd
+    \*  and followed by a percent sign)
+    /\ \A i \in 1..Len(t) : (t[i] = CH_BSL /\ (i = 1 \/ t[i - 1] # CH_BSL)) =>
+            LET n == BslRun(t, i) IN n % 2 = 0 \/ (i + n <= Len(t) /\ t[i + n] = CH_PCT)
 Literal(v) == v.parts           \* only used when ~HasWild(v) /\ ~HasPH(v)
 IsIntNum(n) == n[2] = 1
 
@@ -174,7 +186,9 @@ ValueMod(m, v, applied, hasField, raw) ==
            (IF v.t = "cased" THEN UNSPEC
             ELSE IF v.t # "str" THEN REJECT
             ELSE IF HasWild(v) THEN REJECT
-            ELSE IF HasPH(v) THEN UNSPEC
+            \* a placeholder stands for text that is not known yet: there is nothing to encode (encoding the NAME of the
+            \* placeholder would bury it in the query for good)
+            ELSE IF HasPH(v) THEN REJECT
             ELSE IF m = N_base64 THEN OK(<<VStr("str", B64(Utf8Seq(v.parts)), <<>>)>>)
             ELSE LET r == RefOffset3(Utf8Seq(v.parts))
                  IN  OK(<<VExp([k \in 1..3 |-> VStr("str", r[k], <<>>)])>>))
@@ -211,7 +225,7 @@ ValueMod(m, v, applied, hasField, raw) ==
                  ELSE LET r == ExpandFrom(v.parts, 1) IN OK(<<[v EXCEPT !.parts = r.parts, !.phs = r.phs]>>))
             ELSE IF v.t = "re" THEN
                 (IF v.phs # <<>> THEN UNSPEC
-                 ELSE LET r == ExpandFrom(ReParts(v.s), 1)
+                 ELSE LET r == ExpandFromV(ReParts(v.s), 1, TRUE)
                       IN  OK(<<[v EXCEPT !.s = ReText(r.parts, r.phs), !.phs = r.phs]>>))
             ELSE REJECT)
       [] m = N_fieldref ->
